@@ -190,6 +190,15 @@ def run(ck, facts):
     tri = spec["arms"]
     seen = set()
 
+    def norm_msg(m_):
+        # the message identifies the site; how its placeholders are spelled (`{}` + argument, `{x}`, `{x:?}` with x renamed) does not
+        return re.sub(r"\{\{|\}\}|\{[^{}]*\}?", lambda mm: mm.group(0) if mm.group(0) in ("{{", "}}") else "{}", re.sub(r"\s+", " ", m_))
+    cspec = {}
+    for k_, v_ in json.load(open(os.path.join(C.VERIF, "spec", "cond_panics.json")))["sites"].items():
+        a_, b_, c_ = k_.split("/", 2)
+        cspec["%s/%s/%s" % (a_, b_, norm_msg(c_))] = v_
+    arm_as_cond = {}
+
     def loose(k_):
         fn_, en_, vs_ = k_.rsplit("/", 2)
         segs = C.norm_path(fn_).split("::")
@@ -228,6 +237,19 @@ def run(ck, facts):
                     ck.ok("R1", k, "guarded (triaged as %s, moved into a helper called only from there): %s" % (cands[0], t2.get("why", "")), e["loc"])
                     continue
         if not t:
+            # the same panic may have been triaged as a condition-guarded site (`if matches!(x, A | B) { panic!(..) }` rewritten as an exhaustive match): same function,
+            # same macro, same message
+            nm_ = norm_msg(e.get("msg") or "")
+            ck_ = [c for c in cspec if c.split("/", 2)[0] == e["fn"] and c.split("/", 2)[1] == e["macro"] and c.split("/", 2)[2].strip() and nm_.startswith(c.split("/", 2)[2].rstrip("{ "))]
+            if ck_:
+                tc = cspec[sorted(ck_, key=len)[-1]]
+                arm_as_cond[sorted(ck_, key=len)[-1]] = arm_as_cond.get(sorted(ck_, key=len)[-1], 0) + 1
+                if tc["class"] == "finding":
+                    ck.bad("R1", "cond:" + sorted(ck_, key=len)[-1], "reachable for accepted input: %s" % tc.get("why", ""), e["loc"])
+                else:
+                    ck.ok("R1", k, "%s (triaged as the condition-guarded site): %s" % (tc["class"], tc.get("why", ""))[:200], e["loc"])
+                continue
+        if not t:
             ck.bad("R1", k, "untriaged %s! arm (\"%s\") selected by %s::%s — can an accepted bridge reach it?" % (e["macro"], e["msg"], e["enum"], e["values"]), e["loc"])
             continue
         cls = t["class"]
@@ -240,13 +262,6 @@ def run(ck, facts):
         ck.bad("R1", "floor", "only %d shape-selected panic arms found (the extractor lost sight of the backends)" % len(inv))
 
     # ---------------- R1 (cont.) every other panic-family site (condition-guarded, let-else on non-HIR values, wild arms of matches on Option/tuples) is triaged too
-    def norm_msg(m_):
-        # the message identifies the site; how its placeholders are spelled (`{}` + argument, `{x}`, `{x:?}` with x renamed) does not
-        return re.sub(r"\{\{|\}\}|\{[^{}]*\}?", lambda mm: mm.group(0) if mm.group(0) in ("{{", "}}") else "{}", re.sub(r"\s+", " ", m_))
-    cspec = {}
-    for k_, v_ in json.load(open(os.path.join(C.VERIF, "spec", "cond_panics.json")))["sites"].items():
-        a_, b_, c_ = k_.split("/", 2)
-        cspec["%s/%s/%s" % (a_, b_, norm_msg(c_))] = v_
     found_c = {}
     for f in tool.fn_list:
         if "hir" not in f or f.get("exp") or f.get("dk") == "Closure":
@@ -290,7 +305,7 @@ def run(ck, facts):
             ck.bad("R1", "cond:" + k, "reachable for accepted input: %s" % t.get("why", ""), locs_[0])
         else:
             ck.expect(len(locs_) + extra_ <= t.get("count", 1), "R1", "cond:" + k, "%s: %s" % (t["class"], t.get("why", ""))[:200], "%d sites, %d triaged" % (len(locs_), t.get("count", 1)), locs_[0])
-    if len(found_c) < 20:
+    if len(found_c) < 17:     # 20+ on the pinned tree; a guard rewritten as an exhaustive match moves its site to the arm inventory
         ck.bad("R1", "cond-floor", "only %d non-arm panic sites found (the extractor lost sight of the backends)" % len(found_c))
 
     # ---------------- R2 cross-check of impossible-by-gate entries that rely on a backend support flag
@@ -592,8 +607,27 @@ def run(ck, facts):
         if mt:
             for arm in mt["arms"]:
                 # in the arm itself or in the helper the arm delegates to (the recursive dispatcher itself is not a helper)
-                needs = any(x.get("k") == "mcall" and x.get("m") in ("unwrap", "expect", "unwrap_or_else") and C.strip(x["recv"]).get("k") == "local" and C.strip(x["recv"]).get("n") == "alloc"
-                            for x in C.walk_inl(tool, arm["b"], 1, exclude=[conv["path"]], max_nodes=1500))
+                # the allocator parameter(s): the `Option<&str>` parameter of the converter and of the helpers an arm delegates to, whatever they are called
+                anames = set()
+                for h_ in [conv] + [tool.norm.get(C.norm_path(C.callee(c_) or "")) for c_ in C.calls_in(arm["b"])]:
+                    if h_ and "hir" in h_:
+                        for t_, p_ in zip(h_.get("inputs") or [], h_["hir"].get("params") or []):
+                            if re.fullmatch(r"core::option::Option<&('\w+ )?str>", t_) and isinstance(p_, dict) and p_.get("n"):
+                                anames.add(p_["n"])
+
+                def is_alloc(e_):
+                    e_ = C.strip(e_)
+                    return isinstance(e_, dict) and e_.get("k") == "local" and e_.get("n") in anames
+
+                def needs_alloc(x):
+                    if x.get("k") == "mcall" and x.get("m") in ("unwrap", "expect", "unwrap_or_else") and is_alloc(x["recv"]):
+                        return True
+                    if x.get("k") == "letst" and x.get("els") is not None and x.get("init") is not None and is_alloc(x["init"]) and C.diverges(x["els"]):
+                        return True     # `let Some(a) = alloc else { panic!(..) }`
+                    if x.get("k") == "match" and is_alloc(x["s"]) and any((a_["pat"].get("v") == "None" or a_["pat"].get("k") == "wild") and C.diverges(a_["b"]) for a_ in x["arms"]):
+                        return True
+                    return False
+                needs = any(needs_alloc(x) for x in C.walk_inl(tool, arm["b"], 1, exclude=[conv["path"]], max_nodes=1500))
                 if needs:
                     pv = arm["pat"]
                     for v in [pv.get("v")] + [a_.get("v") for a_ in pv.get("alts", []) or []]:
